@@ -54,6 +54,7 @@ def build(top: Path):
     (root / 'beta').mkdir()
     os.symlink(outside / 'secret.txt', root / 'alpha' / 'result')          # file link to outside
     os.symlink(outside / 'created.txt', root / 'alpha' / 'fresh')          # dangling link to outside
+    os.symlink(outside / 'dir', root / 'alpha' / 'dirlink')                 # directory link to outside INSIDE a key directory (a recursive delete must not follow it)
     os.symlink(outside / 'dir', root / 'outlink')                           # key-level link to outside dir
     os.symlink(root, root / 'selfref')                                      # key-level link to the root itself
     os.symlink(root / 'alpha' / 'parts', root / 'deep')                     # key-level link to a nested dir
@@ -64,7 +65,8 @@ def build(top: Path):
 KEYS = ['alpha', 'beta', 'newkey', '', '.', '..', '../outside', 'alpha/parts', 'alpha\\parts', '/etc', 'outlink', 'selfref',
         'deep', 'alias', 'al.pha', 'alpha/', '\x00', 'new key', '~', 'alpha/../beta']
 FILES = ['data.txt', 'new.txt', '', '.', '..', '../beta/x', '../../outside/secret.txt', '/etc/passwd', 'parts/part0.txt', 'result',
-         'fresh', 'parts', 'sub/new.txt', '\x00']
+         'fresh', 'parts', 'sub/new.txt', '\x00',
+         '../phantom/x.txt', '../../outside/newdir/deeper/x.txt']     # rejected names whose parent does not exist yet: nothing may be created for them
 MODES = ['r', 'w', 'a', 'rb', 'wb', 'x', 'r+']
 
 
